@@ -718,6 +718,9 @@ func runC19(cx *CheckCtx) {
 	w := cx.W
 	// a cheque is paid once: the ballot of the same id is removed before the payout
 	voteProtocol(cx, []string{"Cheque"})
+	// … and the ballot box itself counts distinct members within the window (the rules on common.Vote,
+	// shared with C17/C03/C16): "once the Alphabet approves" is a count of distinct signers
+	runC17Common(cx, w)
 	// "emit can be triggered only by its own Alphabet node": the documented gate of Emit (shared with C03)
 	if m := cx.method("alphabet", "Emit"); m != nil {
 		gateRule(cx, m)
